@@ -499,7 +499,7 @@ impl TimeUtilities for Time {
     /// Wraps around from `23:59:59` to `00:00:00`
     fn add_hours(&self, hours: u32) -> Self {
         Self {
-            nanoseconds: add_hours(self.nanoseconds, hours) % (SECS_PER_DAY_U64 * NANOS_PER_SEC),
+            nanoseconds: (add_hours(self.nanoseconds, hours) % NANOS_PER_DAY as u128) as u64,
             offset: self.offset,
         }
     }
@@ -507,8 +507,7 @@ impl TimeUtilities for Time {
     /// Wraps around from `23:59:59` to `00:00:00`
     fn add_minutes(&self, minutes: u32) -> Self {
         Self {
-            nanoseconds: add_minutes(self.nanoseconds, minutes)
-                % (SECS_PER_DAY_U64 * NANOS_PER_SEC),
+            nanoseconds: (add_minutes(self.nanoseconds, minutes) % NANOS_PER_DAY as u128) as u64,
             offset: self.offset,
         }
     }
@@ -516,8 +515,7 @@ impl TimeUtilities for Time {
     /// Wraps around from `23:59:59` to `00:00:00`
     fn add_seconds(&self, seconds: u32) -> Self {
         Self {
-            nanoseconds: add_seconds(self.nanoseconds, seconds)
-                % (SECS_PER_DAY_U64 * NANOS_PER_SEC),
+            nanoseconds: (add_seconds(self.nanoseconds, seconds) % NANOS_PER_DAY as u128) as u64,
             offset: self.offset,
         }
     }
@@ -525,7 +523,7 @@ impl TimeUtilities for Time {
     /// Wraps around from `23:59:59` to `00:00:00`
     fn add_millis(&self, millis: u32) -> Self {
         Self {
-            nanoseconds: add_millis(self.nanoseconds, millis) % (SECS_PER_DAY_U64 * NANOS_PER_SEC),
+            nanoseconds: (add_millis(self.nanoseconds, millis) % NANOS_PER_DAY as u128) as u64,
             offset: self.offset,
         }
     }
@@ -533,7 +531,7 @@ impl TimeUtilities for Time {
     /// Wraps around from `23:59:59` to `00:00:00`
     fn add_micros(&self, micros: u32) -> Self {
         Self {
-            nanoseconds: add_micros(self.nanoseconds, micros) % (SECS_PER_DAY_U64 * NANOS_PER_SEC),
+            nanoseconds: (add_micros(self.nanoseconds, micros) % NANOS_PER_DAY as u128) as u64,
             offset: self.offset,
         }
     }
@@ -549,7 +547,7 @@ impl TimeUtilities for Time {
     /// Wraps around from `00:00:00` to `23:59:59`
     fn sub_hours(&self, hours: u32) -> Self {
         let new_nanos = sub_hours(self.nanoseconds as i64, hours);
-        let rhs = SECS_PER_DAY_U64 as i64 * NANOS_PER_SEC as i64;
+        let rhs = NANOS_PER_DAY as i128;
         Self {
             nanoseconds: new_nanos.rem_euclid(rhs) as u64,
             offset: self.offset,
@@ -559,7 +557,7 @@ impl TimeUtilities for Time {
     /// Wraps around from `00:00:00` to `23:59:59`
     fn sub_minutes(&self, minutes: u32) -> Self {
         let new_nanos = sub_minutes(self.nanoseconds as i64, minutes);
-        let rhs = SECS_PER_DAY_U64 as i64 * NANOS_PER_SEC as i64;
+        let rhs = NANOS_PER_DAY as i128;
         Self {
             nanoseconds: new_nanos.rem_euclid(rhs) as u64,
             offset: self.offset,
@@ -569,7 +567,7 @@ impl TimeUtilities for Time {
     /// Wraps around from `00:00:00` to `23:59:59`
     fn sub_seconds(&self, seconds: u32) -> Self {
         let new_nanos = sub_seconds(self.nanoseconds as i64, seconds);
-        let rhs = SECS_PER_DAY_U64 as i64 * NANOS_PER_SEC as i64;
+        let rhs = NANOS_PER_DAY as i128;
         Self {
             nanoseconds: new_nanos.rem_euclid(rhs) as u64,
             offset: self.offset,
@@ -579,7 +577,7 @@ impl TimeUtilities for Time {
     /// Wraps around from `00:00:00` to `23:59:59`
     fn sub_millis(&self, millis: u32) -> Self {
         let new_nanos = sub_millis(self.nanoseconds as i64, millis);
-        let rhs = SECS_PER_DAY_U64 as i64 * NANOS_PER_SEC as i64;
+        let rhs = NANOS_PER_DAY as i128;
         Self {
             nanoseconds: new_nanos.rem_euclid(rhs) as u64,
             offset: self.offset,
@@ -589,7 +587,7 @@ impl TimeUtilities for Time {
     /// Wraps around from `00:00:00` to `23:59:59`
     fn sub_micros(&self, micros: u32) -> Self {
         let new_nanos = sub_micros(self.nanoseconds as i64, micros);
-        let rhs = SECS_PER_DAY_U64 as i64 * NANOS_PER_SEC as i64;
+        let rhs = NANOS_PER_DAY as i128;
         Self {
             nanoseconds: new_nanos.rem_euclid(rhs) as u64,
             offset: self.offset,
